@@ -25,12 +25,28 @@ pub fn tcp_substream(
     stream: crate::yamux::Stream,
     codec: ProtocolCodec,
 ) -> Substream {
+    tcp_substream_with_permit(peer, substream_id, stream, codec, None)
+}
+
+/// Same as [`tcp_substream`] with the lifetime permit `TcpConnection` attaches to substreams of
+/// keep-alive protocols.
+pub fn tcp_substream_with_permit(
+    peer: PeerId,
+    substream_id: SubstreamId,
+    stream: crate::yamux::Stream,
+    codec: ProtocolCodec,
+    lifetime_permit: Option<Permit>,
+) -> Substream {
     use tokio_util::compat::FuturesAsyncReadCompatExt;
 
     Substream::new_tcp(
         peer,
         substream_id,
-        crate::transport::tcp::Substream::new(stream.compat(), BandwidthSink::new(), None),
+        crate::transport::tcp::Substream::new(
+            stream.compat(),
+            BandwidthSink::new(),
+            lifetime_permit.map(|permit| permit.0),
+        ),
         codec,
     )
 }
@@ -249,4 +265,123 @@ pub struct ManagerSnapshot {
     pub counted_incoming: Vec<ConnectionId>,
     pub counted_outgoing: Vec<ConnectionId>,
     pub pending_accepts: usize,
+}
+
+// ------------------------------------------------------------------------------------------------
+// Connection seam: what a transport's connection task uses to talk to protocols and the manager.
+// ------------------------------------------------------------------------------------------------
+
+use crate::{
+    error::SubstreamError,
+    protocol::{Direction, SubstreamKeepAlive},
+    types::protocol::ProtocolName,
+};
+
+/// Opaque connection permit.
+#[derive(Debug, Clone)]
+pub struct Permit(crate::protocol::Permit);
+
+/// Mirror of the crate-private `ProtocolCommand`.
+#[derive(Debug)]
+pub enum ProtocolCommand {
+    OpenSubstream {
+        protocol: ProtocolName,
+        fallback_names: Vec<ProtocolName>,
+        substream_id: SubstreamId,
+        connection_id: ConnectionId,
+        permit: Permit,
+        keep_alive: bool,
+    },
+    ForceClose,
+}
+
+/// Wrapper of the crate-private `ProtocolSet` (one per connection).
+pub struct ProtocolSet(crate::protocol::ProtocolSet);
+
+impl TransportHandle {
+    /// `TransportHandle::protocol_set`: what every transport calls when it accepts a connection.
+    pub fn protocol_set(&self, connection_id: ConnectionId) -> ProtocolSet {
+        ProtocolSet(self.0.protocol_set(connection_id))
+    }
+}
+
+impl ProtocolSet {
+    pub async fn report_connection_established(
+        &mut self,
+        peer: PeerId,
+        endpoint: Endpoint,
+    ) -> crate::Result<()> {
+        self.0.report_connection_established(peer, endpoint).await
+    }
+
+    pub async fn report_connection_closed(
+        &mut self,
+        peer: PeerId,
+        connection_id: ConnectionId,
+    ) -> crate::Result<()> {
+        self.0.report_connection_closed(peer, connection_id).await
+    }
+
+    pub async fn report_substream_open(
+        &mut self,
+        peer: PeerId,
+        protocol: ProtocolName,
+        direction: Direction,
+        substream: Substream,
+        opening_permit: Permit,
+    ) -> Result<(), SubstreamError> {
+        self.0.report_substream_open(peer, protocol, direction, substream, opening_permit.0).await
+    }
+
+    pub async fn report_substream_open_failure(
+        &mut self,
+        protocol: ProtocolName,
+        substream: SubstreamId,
+        error: SubstreamError,
+    ) -> crate::Result<()> {
+        self.0.report_substream_open_failure(protocol, substream, error).await
+    }
+
+    pub fn try_get_permit(&mut self) -> Option<Permit> {
+        self.0.try_get_permit().map(Permit)
+    }
+
+    pub fn protocol_codec(&self, protocol: &ProtocolName) -> ProtocolCodec {
+        self.0.protocol_codec(protocol)
+    }
+
+    /// Registered names (main and fallback) with their keep-alive flag.
+    pub fn protocols_with_keep_alives(&self) -> Vec<(ProtocolName, bool)> {
+        self.0
+            .protocols_with_keep_alives()
+            .into_iter()
+            .map(|(name, keep_alive)| (name, matches!(keep_alive, SubstreamKeepAlive::Yes)))
+            .collect()
+    }
+
+    /// Next command from the protocols (`ProtocolSet` as a stream).
+    pub fn poll_command(&mut self, cx: &mut Context<'_>) -> Poll<Option<ProtocolCommand>> {
+        use futures::StreamExt;
+
+        self.0.poll_next_unpin(cx).map(|command| {
+            command.map(|command| match command {
+                crate::protocol::ProtocolCommand::OpenSubstream {
+                    protocol,
+                    fallback_names,
+                    substream_id,
+                    connection_id,
+                    permit,
+                    keep_alive,
+                } => ProtocolCommand::OpenSubstream {
+                    protocol,
+                    fallback_names,
+                    substream_id,
+                    connection_id,
+                    permit: Permit(permit),
+                    keep_alive: matches!(keep_alive, SubstreamKeepAlive::Yes),
+                },
+                crate::protocol::ProtocolCommand::ForceClose => ProtocolCommand::ForceClose,
+            })
+        })
+    }
 }
